@@ -38,7 +38,7 @@ func constString(v ssa.Value) (string, bool) {
 
 // authorizerFuncs: functions of packages under cmds/server/config/authorizers.
 func authorizerFuncs(p *Program) []*ssa.Function {
-	return p.FuncsIn(func(path string) bool {
+	return p.UnitsIn(func(path string) bool {
 		return strings.HasPrefix(path, modPath+"/cmds/server/config/authorizers/") && !strings.HasSuffix(path, "/test")
 	})
 }
@@ -477,7 +477,13 @@ func ruleApplies(p *Program, E *ssa.Function, ret *ssa.Return) (bool, string) {
 			taken := i == 0
 			switch c := iff.Cond.(type) {
 			case *ssa.BinOp:
-				fx, _, okx := loadedField(c.X)
+				nameV := c.X
+				if tc, ok := nameV.(*ssa.Call); ok {
+					if tf := tc.Common().StaticCallee(); tf != nil && tf.Pkg != nil && tf.Pkg.Pkg.Path() == "strings" && tf.Name() == "TrimSpace" {
+						nameV = tc.Common().Args[0] // the rule's name, trimmed into a local
+					}
+				}
+				fx, _, okx := loadedField(nameV)
 				if okx && fx.Name() == "Name" {
 					if cs, isC := constString(c.Y); isC && cs == "*" && c.Op == token.EQL && taken {
 						nameOK = true
